@@ -136,11 +136,13 @@ Step(a) == Do(a) /\ last' = a
 
 CanPop(c) == c.q # <<>> /\ (Dev # "pop" \/ ~c.qcl)
 
-SPop(s) ==
+(* whole: the next Write carries everything that is queued (used where the cut *)
+(* is not observable)                                                        *)
+SPop(s, whole) ==
   LET c == ss[s] IN
   /\ c.sp = "pop"
   /\ IF CanPop(c)
-     THEN \E k \in 1..Len(c.q) :
+     THEN \E k \in (IF whole THEN {Len(c.q)} ELSE 1..Len(c.q)) :
             Set(s, [c EXCEPT !.wbuf = SubSeq(c.q, 1, k), !.q = SubSeq(c.q, k + 1, Len(c.q)),
                              !.sp = "write"])
      ELSE c.qcl /\ Set(s, [c EXCEPT !.sp = "quit"])
@@ -178,10 +180,12 @@ X4(s, L) == LET c == ss[s] IN
                       !.once = IF Dev = "noonce" THEN @ ELSE "done"])
   /\ UNCHANGED count
 
-Internal(s) ==
+InternalW(s, whole) ==
   /\ UNCHANGED maxc
-  /\ \/ SPop(s) \/ SWClosed(s) \/ RClosed(s)
+  /\ \/ SPop(s, whole) \/ SWClosed(s) \/ RClosed(s)
      \/ \E L \in Loops : Quit(s, L) \/ X1(s, L) \/ X2(s, L) \/ X3(s, L) \/ X4(s, L)
+
+Internal(s) == InternalW(s, FALSE)
 
 (* no internal action enabled (closed form; QuiescentOK compares it with ENABLED) *)
 QuietS(c) ==
